@@ -184,6 +184,23 @@ def gen_case(r, k, same=None, long_=False):
     for t in range(1, nsteps):
         if steps[t].get("event"):
             steps[t]["z"] = list(steps[t - 1]["z"])
+    # scale of the data: every length of the case (boundaries, widths, wall positions, restraint centres, values) multiplied by a
+    # power of two around 1e-8 or 1e8 (exact), the forces staying of order one
+    # (scales around 1e-8 are refused by the grid code itself: absolute tolerances 1e-10 on boundaries and widths, C15/C16)
+    c["scale"] = r.choice([1.0, 1.0, 1.0, 2.0 ** -10, 2.0 ** 27])
+    if c["scale"] != 1.0:
+        S = c["scale"]
+        for d, v in enumerate(vars_):
+            if v["kind"] == "lin2":
+                continue          # (its second atom sits at a fixed offset)
+            for k_ in ("lower", "upper", "w", "hc", "c", "P"):
+                if k_ in v:
+                    v[k_] *= S
+            if v.get("walls"):
+                v["walls"]["lo"] *= S
+                v["walls"]["hi"] *= S
+            for st in steps:
+                st["z"][d] *= S
     # a configuration that must be refused, given in the middle of the session (a second abf with minSamples >= fullSamples, or an
     # abf on a variable that does not exist): the running bias must be unaffected
     if r.random() < 0.2:
@@ -979,7 +996,7 @@ def oracle(c, impl_steps, state=None, files=None, loads=None):
             scnt, sgrad = state
             if scnt != cnt:
                 bad.append(("oracle:state-samples", "'samples' of the saved state %s differ from the number of attributed samples per bin %s" % (scnt, cnt)))
-            elif len(sgrad) != len(mean) or not all(close(a, b, 1e-12) for a, b in zip(mean, sgrad)):
+            elif len(sgrad) != len(mean) or not all(close(a, b, 1e-12 if c.get("scale", 1.0) == 1.0 else 1e-9) for a, b in zip(mean, sgrad)):
                 bad.append(("oracle:state-gradient", "'gradient' of the saved state %s is not minus the mean of the attributed samples %s" % (sgrad, [float(x) for x in mean])))
         if files is not None:
             fcnt, fgrad = files
@@ -1493,6 +1510,7 @@ def check(run):
         run.dist("applyBias_switched_at_run_time", 1 if c.get("toggle") else 0)
         run.dist("abf_defined_at_run_time", 1 if c.get("pre") else 0)
         run.dist("unnamed_abf", 1 if c.get("unnamed") else 0)
+        run.dist("scale_%g" % c.get("scale", 1.0))
         run.dist("restart_with_new_configuration", sum(1 for s_ in c["steps"] if s_.get("event", {}).get("newcfg")))
         run.dist("job_starts_at_huge_step", 1 if c.get("step0", 0) >= 2 ** 31 - 2 else 0)
         for stp in c["steps"]:
